@@ -12,35 +12,17 @@ import time
 import vlib
 from vlib import ToolError, log
 
-# rendered from spec/algo/SchemaCtx.tla (Env) - kept in sync by check_project() below
-PROJECT_TS = """
-type Tree = { v: number; kids: Array<Tree> };
-type A = { kind: "a"; b?: B };
-type B = { kind: "b"; a?: A };
-type VA = { k: "x"; x: number };
-type VB = { k: "y"; y: string };
-type U = VA | VB;
-type Holder = { va: VA; u: U };
-type Inline = { k: "p"; p: number } | { k: "q"; q: string };
-type VAo = { k: "x"; x: string };
-type Bad = { d: Date };
-type P2 = { x: Bad; y: string };
-type VD = { k: "d"; d: Date };
-type UD = VB | VD;
-type InlineD = { k: "p"; p: number } | { k: "dd"; d: Date };
-type HD = { ud: UD; i: InlineD };
-type A2 = { b: B2; m: Map<string, number> };
-type B2 = { x: number; a?: A2 };
-type PB2 = { b: B2 };
-type toString = { t: number };
-type A$$B = { d: number };
-type HN = { p: toString; q: A$$B };
-parse.buildParsers<{ Tree: Tree; A: A; B: B; VA: VA; VB: VB; U: U; Holder: Holder; Inline: Inline; VAo: VAo; Bad: Bad; P2: P2; VD: VD; UD: UD; InlineD: InlineD; HD: HD; A2: A2; B2: B2; PB2: PB2; HN: HN }>();
-"""
-ALL = ["Tree", "A", "B", "VA", "VB", "U", "Holder", "Inline", "VAo", "Bad", "P2", "VD", "UD", "InlineD", "HD", "A2", "B2", "PB2", "HN"]
+# the project is SchemaCtx!Env, emitted by MC_SchemaCtx (ENVJ) and rendered here
+def project_ts(env):
+    decls = [f"type {d['n']} = {vlib.ts(d['ty'])};" for d in env]
+    names = [d["n"] for d in env]
+    return "\n".join(decls) + "\nparse.buildParsers<{ " + "; ".join(f"{n}: {n}" for n in names) + " }>();\n", names
+
+
 CFGS = [
     {"name": "defs", "ov": False, "refPathTemplate": "#/$defs/{name}", "definitionContainerKey": "$defs", "overrides": None},
     {"name": "openapi", "ov": False, "refPathTemplate": "#/components/schemas/{name}", "definitionContainerKey": None, "overrides": None},
+    {"name": "urls", "ov": False, "refPathTemplate": "https://example.com/schemas/{name}.json", "definitionContainerKey": None, "overrides": None},
     {"name": "defs+override", "ov": True, "refPathTemplate": "#/$defs/{name}", "definitionContainerKey": "$defs", "overrides": {"VA": "VAo"}},
 ]
 
@@ -59,6 +41,7 @@ def model(tag, maxcalls, deviations, simulate=None):
     if r["violated"] or (not simulate and not r["ok"]):
         raise ToolError("SchemaCtx design check failed:\n" + r["tail"])
     seqs = vlib.tagged_lines(r["lines"], "SEQ")
+    r["env"] = vlib.tagged_lines(r["lines"], "ENVJ")[0]["env"]
     return seqs, r
 
 
@@ -81,6 +64,7 @@ def run(prop, tier):
         states += sr["states"]
     log(f"[model] {distinct} states; {len(full)} call sequences to replay")
 
+    PROJECT_TS, ALL = project_ts(mr["env"])
     comp = vlib.compile_all([vlib.compile_req(0, [("entry.ts", PROJECT_TS)])])[0]
     if comp["outcome"] != "code":
         raise ToolError(f"the C16 project does not compile: {comp}")
